@@ -159,7 +159,7 @@ def run(seed, tier, lean) -> Result:
     n = 300 if tier == 'quick' else 1800
     hists = []
     for k in range(n):
-        g = Gen(random.Random(rnd.getrandbits(48)), WEIGHTS, nmax=rnd.choice([4, 6, 10]), rich=True)
+        g = Gen(random.Random(rnd.getrandbits(48)), WEIGHTS, nmax=rnd.choice([4, 6, 10]), rich=True, bare_defenses=True)
         ops = g.gen(rnd.randint(8, 40))
         if not any(o['k'] == 'save_load' for o in ops):
             ops.insert(len(ops) - 1, {'k': 'save_load', 'fmt': rnd.choice(['json', 'yaml']), 'ext': 'yml', 'withModel': rnd.random() < 0.5})
@@ -223,7 +223,7 @@ def genexec_measure(seed: int, n: int) -> dict:
         if len([e for e in st['examples'] if e[0] == kind]) < 2: st['examples'].append([kind, info])
     hists = []
     for k in range(n):
-        g = Gen(random.Random(rnd.getrandbits(48)), WEIGHTS, nmax=rnd.choice([4, 6, 10]), rich=True)
+        g = Gen(random.Random(rnd.getrandbits(48)), WEIGHTS, nmax=rnd.choice([4, 6, 10]), rich=True, bare_defenses=True)
         ops = g.gen(rnd.randint(8, 40))
         if not any(o['k'] == 'save_load' for o in ops):
             ops.insert(len(ops) - 1, {'k': 'save_load', 'fmt': rnd.choice(['json', 'yaml']), 'ext': 'yml', 'withModel': rnd.random() < 0.5})
